@@ -291,6 +291,13 @@ def generate(contract, registry=REG, finite=None, grid=None):
         entry.pc = list(st.pc)
         fninfo = {"ordinals": loop_ordinals(fn), "entry": entry, "node": fn}
         paths = [0]
+        for d in fn.decorator_list:
+            dn = E.dotted_name(d.func if isinstance(d, ast.Call) else d) or ""
+            if dn.split(".")[-1] in ("cached_property", "lru_cache", "cache", "cached") and not getattr(contract, "memoised_ok", False):
+                # a contract is about one evaluation of the body; a memoised function hands later callers the result of an EARLIER
+                # state, which no per-call contract covers
+                eng.oblige("contract-shape", f"the function is evaluated on every call (decorator @{dn} memoises it: a cached result "
+                                             f"outlives the state it was computed from)", St(entry.env, entry.heap, [], {}), z3.BoolVal(False), fn)
         for p in new_params:
             eng.oblige("contract-shape", f"the function has the signature the contract was written for (parameter '{p}' is not in the "
                                          f"contract; it is treated as an arbitrary value)", St(entry.env, entry.heap, [], {}), z3.BoolVal(False), fn)
